@@ -93,6 +93,12 @@ def run(ctx):
         g.o.loop_twin = True
         src = g.function()
         progs.append((src, g))
+    # loop-mode result selection reads the columns of a variable's sources: accumulators with dependents, names drawn
+    # at random (so that sources are adjacent / apart / around the variable in sorted order), plus a witness shape
+    import props.funcs_common as FCm
+    progs.append(('int f(int g,int x,int y,int z){ int i; for (i = 0; i < g; i++) { z = y; y = x + y; } }', None))
+    for i in range(ctx.budget(24, 600)):
+        progs.append(((FCm.dependent_family, FCm.dependent_family, FCm.chain_loop)[i % 3](rng), None))
     explicit_twins = [
         ('int f(int x,int y){ do { while (y < 2) { y = y + x; } } while (x < 3); }',
          'int f(int x,int y){ do while (y < 2) { y = y + x; } while (x < 3); }', 'braces-removed'),
@@ -131,6 +137,14 @@ def run(ctx):
             rng.shuffle(tg)
             rho2 = dict(zip(names, tg))
             variants.append(('rename-nested-names', rename_src(src, rho2), rho2))
+        # the same names dealt out again in a random order (neighbours in sorted order become non-neighbours)
+        called = set(re.findall(r'\b([A-Za-z_]\w*)\s*\(', src))
+        pn = [a for a in names if a not in called]
+        pm = list(pn)
+        rng.shuffle(pm)
+        rho3 = dict(zip(pn, pm))
+        if pm != pn:
+            variants.append(('rename-permute', rename_src(src, rho3), rho3))
         if ' + ' in src or ' - ' in src:
             swapped = src.replace(' + ', ' \x00 ').replace(' - ', ' + ').replace(' \x00 ', ' - ')
             variants.append(('plus-minus', swapped, None))
